@@ -37,7 +37,7 @@ vector<double> NumCalcApplicationTools::getVector(const std::string& desc)
   vector<double> values;
   string key, val;
 
-  if (desc.substr(0, 3) == "seq") // Bounds specified as sequence
+  if (desc.substr(0, 4) == "seq(") // Bounds specified as sequence
   {
     map<string, string> keyvals;
     KeyvalTools::multipleKeyvals(desc.substr(4, desc.size() - 5), keyvals);
